@@ -417,6 +417,43 @@ def _str_parts(t):
     return out
 
 
+def lazy_iteration(repo, col, R):
+    """`for branch in cell.branches:` must build each view when the loop reaches it: views are snapshots of the row labels,
+    and an operation in the loop body that renumbers rows (set_ncomp) makes every view built earlier stale.  The generator
+    therefore yields `_at_nodes(level, index)` one by one from a loop over the distinct indices of the live scope; building all
+    views first (yield from a list / comprehension, return of a list) splices later edits at the wrong rows."""
+    fi = repo.method("Module", "_iter_submodules")
+    ys = [n for n in ast.walk(fi.node) if isinstance(n, ast.Yield)]
+    yf = [n for n in ast.walk(fi.node) if isinstance(n, ast.YieldFrom)]
+    rets = [n for n in ast.walk(fi.node) if isinstance(n, ast.Return) and n.value is not None]
+    def builds_views(n):
+        return any(isinstance(c, ast.Call) and isinstance(c.func, ast.Attribute) and c.func.attr == "_at_nodes" for c in ast.walk(n))
+    lazy = [y for y in ys if y.value is not None and isinstance(y.value, ast.Call) and isinstance(y.value.func, ast.Attribute)
+            and y.value.func.attr == "_at_nodes"]
+    eager = [n for n in yf + rets if builds_views(n) and any(isinstance(x, (ast.ListComp, ast.List, ast.Tuple)) or
+             (isinstance(x, ast.Call) and isinstance(x.func, ast.Name) and x.func.id in ("list", "tuple")) for x in ast.walk(n.value))]
+    stored = [n for n in ast.walk(fi.node) if isinstance(n, ast.Assign) and builds_views(n.value) and
+              any(isinstance(x, (ast.ListComp, ast.List)) for x in ast.walk(n.value))]
+    in_loop = any(isinstance(lp, ast.For) and any(y in ast.walk(lp) for y in lazy) for lp in ast.walk(fi.node))
+    if not lazy and not eager and not stored:
+        col.unk(R, fi, "_iter_submodules builds one view per index", "neither a lazy nor an eager construction of the views recognised", node=fi.node)
+        return
+    col.check(bool(lazy) and in_loop and not eager and not stored, R, fi, "_iter_submodules builds each view when the iteration reaches it (lazy)",
+              "for idx in idxs: yield self._at_nodes(name, idx)",
+              "all views are built before the first one is handed out: an edit made through one view during the loop (set_ncomp renumbers "
+              "the rows) leaves the remaining views stale, and they write to other compartments", node=(eager + stored + [fi.node])[0])
+    ex = idx.expander(repo, fi)
+    src_idx = None
+    for lp in ast.walk(fi.node):
+        if isinstance(lp, (ast.For, ast.comprehension)):
+            src_idx = src_idx or ex.term(lp.iter)
+    ok = src_idx is not None and T.find(src_idx, lambda x: x.op == "mcall" and x.name == "unique") is not None and \
+        T.find(src_idx, lambda x: x.op == "attr" and x.name == "_scope") is not None and \
+        T.find(src_idx, lambda x: x.op == "attr" and x.name == "nodes" and _is_self(x.args[0])) is not None
+    col.check(ok, R, fi, "_iter_submodules iterates the distinct <scope>_<level>_index values of the view's own rows", "self.nodes[scope_level_index].unique()",
+              f"iterates over {src_idx.short(80) if src_idx is not None else None}", node=fi.node)
+
+
 def _filter(repo, col):
     R = "R-C11-filter"
     for name, tbl, inview in (("_at_nodes", "nodes", None), ("_at_edges", "edges", None)):
@@ -489,10 +526,7 @@ def _filter(repo, col):
               f"children slice is {unparse(sl) if sl else None}", node=sl or fi.node)
     fi = repo.method("Module", "_iter_submodules")
     ex = idx.expander(repo, fi)
-    ok = "self._scope + f'_{name}_index'" in unparse(fi.node) and "yield self._at_nodes(name, idx)" in unparse(fi.node) and \
-        "self.nodes[col].unique()" in unparse(fi.node)
-    col.check(ok, R, fi, "_iter_submodules yields _at_nodes(name, idx) for every index of the live scope", "", "iteration does not funnel into _at_nodes",
-              node=fi.node)
+    lazy_iteration(repo, col, R)
     for name, lit in (("cells", "cell"), ("branches", "branch"), ("comps", "comp")):
         fi = repo.method("Module", name)
         ok = f"yield from self._iter_submodules('{lit}')" in unparse(fi.node)
